@@ -135,6 +135,9 @@ func (e *Engine) implementers(key string) []*ssa.Function {
 			if !ok || nt.TypeParams().Len() > 0 {
 				continue
 			}
+			if strings.Contains(sp.Pkg.Path(), "/testutil") || strings.Contains(sp.Pkg.Path(), "/e2e") || strings.Contains(sp.Pkg.Path(), "/simapp") {
+				continue // test doubles are not production implementations
+			}
 			if _, isIface := nt.Underlying().(*types.Interface); isIface {
 				continue
 			}
